@@ -57,7 +57,7 @@ def _gen_shard0(arg):
         dt = rec['dt']
         res['types'] += 1
         obj = dc.build_type(dt)
-        objs = (('ctor', obj), ('rebuilt', dc.rebuild_type(obj)))
+        objs = (('ctor', obj), ('rebuilt', dc.second_object(obj, dt)))
         dtk = dc.key(dt)
         for case in rec['cases']:
             c, p, path = case['c'], case['p'], case['path']
@@ -97,7 +97,7 @@ def _rand_records0(arg):
     while len(recs) < n:
         dt = dc.rand_type(rnd, rnd.choice((0, 0, 1, 1, 2, 3)))
         obj = dc.build_type(dt)
-        objs = (obj, dc.rebuild_type(obj))
+        objs = (obj, dc.second_object(obj, dt))
         for _ in range(6):
             conc = dc.rand_value(rnd, dt)
             path = rnd.choice(('wire', 'write', 'call'))
@@ -133,7 +133,7 @@ rkey = dc.rkey
 def _run_child(dt, c, p, path, via, conc=None):
     obj = dc.build_type(dt)
     if via == 'rebuilt':
-        obj = dc.rebuild_type(obj)
+        obj = dc.second_object(obj, dt)
     out, _ = dc.run_case(obj, dt, c, p, path, conc)
     r = {'kind': 'case', 'dt': dt, 'c': c, 'p': p, 'path': path, 'out': out, 'via': via}
     if conc is not None:
@@ -296,7 +296,7 @@ def replay(chk, rep):
     print('candidate:', dc.show(c), '->', repr(dc.concrete(c, dt, obj) if conc is None else conc),
           ' previous:', dc.show(p), ' path:', path)
     out = None
-    for via, o in (('ctor', obj), ('rebuilt', dc.rebuild_type(obj))):
+    for via, o in (('ctor', obj), ('rebuilt', dc.second_object(obj, dt))):
         o1, raw = dc.run_case(o, dt, c, p, path, conc)
         print(f'observed ({via}):', dc.show_outcome(o1), ' raw:', repr(raw))
         if via == d.get('via', 'ctor'):
